@@ -138,11 +138,13 @@ def _migrate_csv_to_rules(csv_file: str, config_dir: str, backup: bool = True) -
         # and renamed into place so settings.yaml is never seen half-written.
         settings_path = os.path.join(config_dir, 'settings.yaml')
         if os.path.exists(settings_path):
-            with open(settings_path, 'r', encoding='utf-8') as f:
+            # newline='' on both sides: the existing text is copied byte for byte
+            # (a file with CRLF line endings keeps them), only lines are added
+            with open(settings_path, 'r', encoding='utf-8', newline='') as f:
                 content = f.read()
             if 'merchants_file:' not in content:
                 tmp_path = settings_path + '.tmp'
-                with open(tmp_path, 'w', encoding='utf-8') as f:
+                with open(tmp_path, 'w', encoding='utf-8', newline='') as f:
                     f.write(content)
                     f.write('\n# Merchant rules file (migrated from CSV)\n')
                     f.write('merchants_file: config/merchants.rules\n')
